@@ -13,13 +13,18 @@ Open Scope R_scope.
    mju_mulSymVecSparse on the representation the engine uses for M: per dof i one CSR row holding the strictly
    lower entries (column j < i, value) and the diagonal.  For every size, every such lower-triangular structure
    (wfRows: stored columns of row i are < i; any number, order and repetition of entries) and every velocity:
-   energy[1] = 1/2 * sum_i ( M_ii v_i^2 + 2 * sum_{(j, val) in row i} val v_j v_i ),
-   i.e. one half of the quadratic form v' M v of the symmetric matrix whose lower triangle is stored. *)
+   energy[1] = 1/2 * sum_i sum_j v_i M_ij v_j  (vMv) where M (Mdense) is the symmetric dense matrix whose diagonal
+   and lower triangle are the stored entries (repeated column indices summed) and whose upper triangle is the
+   mirror image; equivalently 1/2 * sum_i ( M_ii v_i^2 + 2 * sum_{(j, val) in row i} val v_j v_i ) (qform).
+   Proved through the in-place update loop of mju_mulSymVecSparse (res[i] assigned, then res[i] and res[j]
+   incremented), which is only correct because every stored column is smaller than its row. *)
 Theorem C08_kinetic :
   forall (rows : list (mrow R)) (v : list R),
     length v = length rows -> wfRows 0 rows ->
-    energyVel rows v = / 2 * qform v 0 rows.
-Proof. exact energyVel_qform. Qed.
+    energyVel rows v = / 2 * vMv rows v /\
+    energyVel rows v = / 2 * qform v 0 rows /\
+    (forall i j : nat, Mdense rows i j = Mdense rows j i).
+Proof. exact kinetic_full. Qed.
 Print Assumptions C08_kinetic.
 
 (* ---- slide / hinge joint springs with polynomial stiffness of ANY number of terms (mjNPOLY = 2 in the source):
